@@ -214,7 +214,8 @@ pub fn rlp_decode_first(b: &[u8], max_bytes: usize) -> Result<(BigUint, usize), 
         if len < 56 {
             return Err(Bad::Length);
         }
-        if b.len() < 1 + ll + len {
+        // (a declared length near usize::MAX must not wrap the bound computation)
+        if len > b.len() || b.len() < 1 + ll + len {
             return Err(Bad::Truncated);
         }
         (1 + ll, len)
